@@ -21,7 +21,8 @@ RULE = ('Generated: 2-120 layers on a log-spaced or arbitrary decreasing pressur
         'text, column choice, delimiter, units, skipped rows); layer-correlated profile with default covariance '
         'and any correlation length; Guillot profile inside its documented bounds plus the rejected classes '
         '(zero opacities, negative temperatures).  Non-trivial = at least one interior node or a smoothing '
-        'window of >=3 layers or a non-constant control set; distinct by case hash.')
+        'window of >=3 layers or a non-constant control set; distinct by case hash.'
+        ' Every accepted profile is read three times and once more after re-initialising; the rejected N-point classes include a negative or zero interior pressure node, given at construction or set through its fitting parameter after a first use.')
 ASSUMPTIONS = [
     'range clauses carry rtol 1e-9 (cumulative-sum moving average)',
     'Guillot reference: Guillot (2010) eq. 49 in the Line et al. (2012) eq. 19 form with E2(x) = exp(-x) - x E1(x) (scipy.special.exp1), compared where it is a finite positive number; surface gravity from G M / R^2 with typed constants',
